@@ -30,6 +30,7 @@ class Resolver:
         self.p = project
         self._local_types: dict = {}
         self._attr_types: dict = {}
+        self._stored_names: dict = {}
 
     # ------------------------------------------------------------ annotations
     def ann_to_type(self, mod, ann) -> object:
@@ -257,9 +258,8 @@ class Resolver:
                 return f.nested[name]
             if name in f.params:
                 return ("param", name)
-            for n in walk_own(f.node):
-                if isinstance(n, ast.Name) and n.id == name and isinstance(n.ctx, ast.Store):
-                    return ("local", name)
+            if name in self._stored(f):
+                return ("local", name)
             f = f.parent
         mod = func.module
         if name in mod.functions:
@@ -281,6 +281,14 @@ class Resolver:
         if name in mod.assigns:
             return ("global", mod.name, name)
         return ("ext", "builtins." + name)
+
+    def _stored(self, f: FuncInfo) -> set:
+        key = id(f)
+        st = self._stored_names.get(key)
+        if st is None:
+            st = {n.id for n in walk_own(f.node) if isinstance(n, ast.Name) and isinstance(n.ctx, ast.Store)}
+            self._stored_names[key] = st
+        return st
 
     def resolve_call(self, func: FuncInfo, call: ast.Call) -> Callee:
         f = call.func
